@@ -34,13 +34,13 @@ GFF = [
     "c1\ts\texon\t15\t40\t.\t+\t.\tID=e2;Parent=m1",
     "c1\ts\texon\t60\t100\t.\t+\t.\tID=e3;Parent=m1",
     "c1\ts\tCDS\t5\t70\t.\t+\t0\tParent=m1",
-    "c1\ts\tpart\t2\t3\t.\t+\t.\tID=p1;Parent=e1",
+    "c1\ts\tpart\t2\t3\t.\t+\t.\tID=p1;Parent=e1;note=late",       # a key first seen after the lines inspected for the dialect
 ]
 GTF = [
     'c1\ts\texon\t1\t20\t.\t-\t.\tgene_id "g1"; transcript_id "m1"; exon_number "1"; ID "x1";',
     'c1\ts\texon\t15\t40\t.\t-\t.\tgene_id "g1"; transcript_id "m1"; exon_number "2"; ID "x2";',
     'c1\ts\texon\t60\t100\t.\t-\t.\tgene_id "g1"; transcript_id "m1"; exon_number "3"; ID "x3";',
-    'c1\ts\tCDS\t5\t70\t.\t-\t0\tgene_id "g1"; transcript_id "m1";',
+    'c1\ts\tCDS\t5\t70\t.\t-\t0\tgene_id "g1"; transcript_id "m1"; tag "late";',
 ]
 UPD = ["c1\ts\texon\t45\t50\t.\t+\t.\tParent=m1", "c1\ts\tgene\t200\t300\t.\t-\t.\tID=g9"]
 NEW = [
@@ -73,7 +73,7 @@ def pristine(ctx, kind):
         path = os.path.join(d, "pristine.db")
         kw = dict(disable_infer_genes=True, disable_infer_transcripts=True) if kind == "gtf_noinfer" else {}
         src = dbutil.write_text(d, "src.txt", "\n".join(GTF if kind.startswith("gtf") else GFF) + "\n")
-        db = gffutils.create_db(src, path, verbose=False, force=True, **kw)
+        db = gffutils.create_db(src, path, verbose=False, force=True, checklines=1, **kw)      # two lines inspected for the dialect
         if kind == "gff3_updated":
             u = dbutil.write_text(d, "upd.gff", "\n".join(UPD) + "\n")
             db.update(u, make_backup=False, verbose=False)
@@ -119,11 +119,31 @@ def body_clobber(ch, ctx):
     elif variant == "input_older_than_database" and via == "path":
         os.utime(data, (1000000000, 1000000000))                                 # the new input file is older than the old database
     sig = dict(sig, call=variant)
+    # how the database path is written: absolute, relative to the current directory, or a symbolic link in another directory
+    # whose link text is relative to ITS directory (the current directory is neither)
+    pform = ch.choose("dbfn_form", ("absolute", "relative", "symlink")) if variant == "plain" else "absolute"
+    real = target
+    if pform == "relative":
+        target = os.path.relpath(real)
+    elif pform == "symlink":
+        os.makedirs(os.path.join(wd, "links"))
+        target = os.path.join(wd, "links", "t.db")
+        os.symlink(os.path.join("..", "t.db"), target)
+    sig = dict(sig, dbfn=pform)
     raised = None
+    cwd0 = os.getcwd()
+    os.makedirs(os.path.join(wd, "cwd", "deeper"))
+    os.chdir(os.path.join(wd, "cwd", "deeper"))         # whatever is resolved against the current directory stays inside the scratch space
+    if pform == "relative":
+        target = os.path.relpath(real)
     try:
         db = gffutils.create_db(data, target, force=force, verbose=False, **dict(kw, **extra))
     except Exception as e:
         raised = e
+    finally:
+        os.chdir(cwd0)
+    if pform == "relative":
+        target = real
     if variant in ("invalid_merge_fields", "pragmas_none"):
         # the call fails whatever 'force' says; without force the existing file must survive it untouched
         ctx.check(raised is not None, "invalid-call-did-not-raise", sig)
@@ -235,7 +255,9 @@ def body_reads(ch, ctx):
     wd = ctx.fresh_dir()
     target = os.path.join(wd, "r.db")
     shutil.copyfile(ppath, target)
-    db = gffutils.FeatureDB(target)
+    # a single call is also made on objects opened with non-default options
+    okw = ch.choose("open_options", ({}, dict(keep_order=True), dict(sort_attribute_values=True), dict(pragmas={"cache_size": 100}))) if n == 1 else {}
+    db = gffutils.FeatureDB(target, **okw)
     pending = ch.flag("failed_write_pending")
     if pending:
         # an earlier write on this object failed half-way (its callback raised): nothing of it may ever reach the file
@@ -249,8 +271,8 @@ def body_reads(ch, ctx):
     stmts = []
     db.conn.set_trace_callback(stmts.append)
     results = []
-    sig = dict(db=kind)
-    ctx.sample(lambda: dict(db=kind, calls=seq))
+    sig = dict(db=kind, open_options=",".join(sorted(okw)))
+    ctx.sample(lambda: dict(db=kind, calls=seq, open_options=okw))
     sig_pending = None
     ctx.nontrivial()
     for name in seq:
